@@ -292,6 +292,8 @@ func runC06(c *Ctx, prop string) {
 		c.Sites++
 		c.Check(okRA, prop+"-TAIL", fnName(inject), "replace-all", inject.Pos(), "the literal is replaced wholesale by rInject.ReplaceAll", "the new literal is not installed by one rInject.ReplaceAll on the field expression (appending instead of replacing breaks idempotence)")
 	}
+	// ---------------- MERGE
+	runMerge(c, prop)
 	if prop == "C07" {
 		return
 	}
